@@ -152,11 +152,22 @@ def kill_run(R, workdir, idx, nobj, mode, onlybest, nextra, via):
     env = dict(os.environ)
     p = subprocess.Popen([sys.executable, "-B", "-m", "harness.drv_c20", "--child", path, side, str(nobj), mode,
                           "1" if onlybest else "0", str(nextra), via, str(R.randint(0, 10 ** 6))], env=env)
-    time.sleep(0.25 + R.random() * 0.5)
+    # wait until the child has started registering (interpreter start-up can be slow on a loaded machine),
+    # then let it run for a random while and kill it
+    t0 = time.time()
+    while time.time() - t0 < 30:
+        if os.path.exists(side) and os.path.getsize(side) > 0:
+            break
+        if p.poll() is not None:
+            break
+        time.sleep(0.02)
+    time.sleep(0.05 + R.random() * 0.4)
     p.send_signal(signal.SIGKILL)
     p.wait()
     rows, partial = read_disk(path) if os.path.exists(path) else ([], "")
     cfg, regs = None, []
+    if not os.path.exists(side):
+        return None, None
     with open(side) as f:
         for line in f:
             try:
